@@ -47,7 +47,9 @@ struct SdoDict {
         // 2301h..2304h: a type that rejects every written value with a CO_ERR the server has to translate (range, mapping type, mapping length, incompatibility);
         // in the dictionary only (not in 'objs'): addressed by the C04 request generator, never by whole sessions
         { static const CO_ERR rej[] = {CO_ERR_OBJ_RANGE, CO_ERR_OBJ_MAP_TYPE, CO_ERR_OBJ_MAP_LEN, CO_ERR_OBJ_INCOMPATIBLE}; for (int k = 0; k < 4; k++) { ObjSpec o; o.idx = (uint16_t)(0x2301 + k); o.sub = 0; o.flags = CO_OBJ_____RW; o.type = T_USER; o.val = (uint32_t)rej[k]; specs.push_back(o); } }
+        // entries far away in the index space (profile areas): the lookup has to order keys that differ by more than 8000h in the index
         { ObjSpec o; o.idx = 0x2300; o.sub = 0; o.flags = CO_OBJ_____RW; o.type = T_USER; o.val = 0x06060000u + (uint32_t)p.c("usercode", 0x10); specs.push_back(o); objs.push_back({0x2300, 0, 3, 4, true, true, false}); }
+        addInt(0x6000, 0, 4, CO_OBJ_____RW, 0x60006000); addInt(0xA100, 0, 2, CO_OBJ_____RW, 0xA100); addInt(0xBFFF, 0, 1, CO_OBJ_____RW, 0xBF);   // objs 23..25
     }
     const SdoObj *find(uint16_t idx, uint8_t sub) const { for (auto &o : objs) if (o.idx == idx && o.sub == sub) return &o; return nullptr; }
     bool hasIndex(uint16_t idx) const { for (auto &s : specs) if (s.idx == idx) return true; return false; }
